@@ -121,7 +121,10 @@ static void judge_c14(const Files &files, const std::string &main, Result &r) {
   Theo::ScanResult sr = Theo::scan(files, main);
   r.digest = stream_digest(sr);
   if (!compare_tokens(files, main, sr, ro, r, "scan")) return;
-  if (ro.first_malformed >= 0) {
+  bool ref_malformed = false;
+  for (auto &e : ro.errs)
+    if (e.type == "EXPECTED_FILENAME") ref_malformed = true;
+  if (ref_malformed) {
     bool found = false;
     for (auto &e : sr.errors)
       if (e.t == Theo::ParseError::EXPECTED_FILENAME) found = true;
@@ -246,6 +249,18 @@ static void gen_files(Tape &t, Result &r, Files &files, std::string &main) {
         }
       }
       body += gen_text(t, r);
+    }
+    // a file may also end in a directive: the keyword alone (nothing may leak into the including file) or with its name
+    if (nfiles > 1 && t.chance(1, 5)) {
+      static const char *inc[] = {"include", "INCLUDE", "Include"};
+      body += " ";
+      body += inc[t.pick(3)];
+      if (t.chance(1, 2)) {
+        body += " \"";
+        body += FNAMES[t.pick(5)];
+        body += "\"";
+      }
+      r.cls("file-ends-in-directive");
     }
     files[FNAMES[i]] = body;
   }
@@ -487,7 +502,11 @@ static void prop_c15(Tape &t, Result &r) {
         case 2: b += "include "; break;
         case 3: b += "INCLUDE\n\"" + names[t.pick((unsigned)nfiles)] + "\"\n"; break;
       }
-      b += "m" + std::to_string(f) + "k" + std::to_string(k) + " ";
+      // the last directive of a file may also be its last token(s)
+      if (k + 1 == nd && t.chance(1, 4))
+        r.cls("file-ends-in-directive");
+      else
+        b += "m" + std::to_string(f) + "k" + std::to_string(k) + " ";
     }
     files[names[(size_t)f]] = b;
   }
